@@ -24,7 +24,7 @@ import numpy as np
 from .. import gen, probes
 from ..core import Check, jdigest, result_template
 from ..oracles import geom, kepler
-from ..run import cleanup, fmt_ts, history_digest, wrap_method
+from ..run import cleanup, fmt_ts, history_digest, parse_ts, wrap_method
 from .common import drive, generic_shrinks, raised_in_harness, time_info, variant
 
 POS_TOL = 1e-6
@@ -75,7 +75,7 @@ class C20(Check):
     assumptions = [
         "claimed for the orbit-determination clause only; the Lambert clause over all arcs is not applicable (pure function) - only the arcs visited by runs are checked",
         "noise off (numpy.random.randn -> 0) so that observations are exact; truth under two-body dynamics",
-        "tolerances 1e-6 km and 1e-6 km/s + |v| * 8e-5 s / time-of-flight (the repo derives the time of flight from two Julian dates, each resolved to 40 us); spacing >= 40 % of a period or eccentricity >= 0.05 is outside the clause and not judged",
+        "tolerances 1e-6 km and 1e-6 km/s + |v| * 8e-5 s / time-of-flight (the repo derives the time of flight from two Julian dates, each resolved to 40 us); spacing >= 40 % of a period, eccentricity >= 0.05, or an observation pair with the impulse between them (possible after a false maneuver alarm) is outside the clause and not judged",
     ]
     real_components = ["EstimateAgent IOD hand-over", "LambertIOD.determineNewEstimateState (history from the output DB)", "lambertUniversal / lambertBattin / lambertGauss", "radarObs2eciPosition", "maneuver detection", "radar sensors"]
     stub_components = ["ray (rsim.simray)", "numpy.random.randn (zeros: noise-off profile)"]
@@ -187,7 +187,11 @@ class C20(Check):
                 r_, v_ = x2[:3], x2[3:]
                 ecc = float(np.linalg.norm(np.cross(v_, np.cross(r_, v_)) / kepler.MU - r_ / np.linalg.norm(r_)))
                 frac = (k2 - k1) * step / P
-                in_domain = frac < 0.40 and ecc < 0.05
+                t_imp = [(parse_ts(e["start_time"]) - S).total_seconds() for e in case["config"].get("events", []) if e["event_type"] == "impulse"]
+                straddles = any(k1 * step - 1e-3 <= t <= k2 * step + 1e-3 for t in t_imp)   # the two observations are not on one orbit
+                if straddles:
+                    cnt["iod_pairs_straddling_the_impulse"] = cnt.get("iod_pairs_straddling_the_impulse", 0) + 1
+                in_domain = frac < 0.40 and ecc < 0.05 and not straddles
                 cnt["iod_attempts_with_two_radar_observations"] = cnt.get("iod_attempts_with_two_radar_observations", 0) + 1
                 if not in_domain:
                     cnt["iod_attempts_outside_clause_domain"] = cnt.get("iod_attempts_outside_clause_domain", 0) + 1
